@@ -69,13 +69,17 @@ func (propC20) Gen(seed uint64, tier string) *Case {
 			clones++
 			continue
 		}
-		switch r.Intn(5) {
+		switch r.Intn(7) {
 		case 0:
 			cc.Steps = append(cc.Steps, CloneStep{K: "dot", A: a})
 		case 1:
 			cc.Steps = append(cc.Steps, CloneStep{K: "call", A: a})
 		case 2:
 			cc.Steps = append(cc.Steps, CloneStep{K: "index", A: a})
+		case 3:
+			cc.Steps = append(cc.Steps, CloneStep{K: "callq", A: a})
+		case 4:
+			cc.Steps = append(cc.Steps, CloneStep{K: "assert", A: a})
 		default:
 			cc.Steps = append(cc.Steps, CloneStep{K: "add", A: a, N: r.Range(1, 9)})
 		}
@@ -219,6 +223,16 @@ func (propC20) Check(c *Case) (*Violation, *RunInfo) {
 			n := next()
 			a.st.Call(jen.Id(n))
 			a.own = append(a.own, "(", n, ")")
+			a.appended = true
+		case "callq": // a qualified identifier as argument: rendering registers an import through the wrapper chain
+			n := next()
+			a.st.Call(jen.Qual("a.example/q"+n, "S"+n))
+			a.own = append(a.own, "(", "q"+n, ".", "S"+n, ")")
+			a.appended = true
+		case "assert":
+			n := next()
+			a.st.Assert(jen.Id(n))
+			a.own = append(a.own, ".", "(", n, ")")
 			a.appended = true
 		case "index":
 			uniq++
